@@ -73,9 +73,14 @@ func runC12(s *kernel.Sim) {
 	thrCfg := &sharedConfig.ResponseBasedThrottlingConfig{RetryAfterHeader: "Retry-After", RetryAfterType: raType, RelevantStatuses: []int{429, 503}}
 
 	inGroup := false
+	holdSleepers := false // the cache's expiry goroutines stop at their lock sites (placement below)
 	s.YieldOn = func(point string, a []string, harness bool) bool {
-		return harness && inGroup && isLockPoint(point) && siteOn(a[0])
+		if !harness {
+			return holdSleepers && isLockPoint(point)
+		}
+		return inGroup && isLockPoint(point) && siteOn(a[0])
 	}
+	forcePad := -1
 
 	stored := map[string]*c12stored{} // unique body -> what was stored
 	methods := []string{"GET", "POST"}
@@ -122,7 +127,11 @@ func runC12(s *kernel.Sim) {
 	// doResponse stores (maybe) a response with a unique body.
 	doResponse := func(k key) {
 		n++
-		body := fmt.Sprintf("body-%d-%s", n, pads[tp.Choose(len(pads))])
+		pad := pads[tp.Choose(len(pads))]
+		if forcePad >= 0 && forcePad < len(pads) {
+			pad = pads[forcePad]
+		}
+		body := fmt.Sprintf("body-%d-%s", n, pad)
 		st := &c12stored{key: keyStr(k), at: s.Now(), size: len(body), limitMB: float64(cacheCfg.MaxCacheSizeMegabytes), seq: s.Seq()}
 		keyOf[st.key] = k
 		hdr := map[string]string{"X-N": fmt.Sprint(n)}
@@ -290,6 +299,47 @@ func runC12(s *kernel.Sim) {
 	}
 
 	for op := 0; op < nOps && !s.Failed(); op++ {
+		// size runs: an entry expires, its expiry goroutine has woken and is held before
+		// it takes the cache lock, the same key is stored again with the largest body,
+		// the goroutine goes on; then the cache is filled
+		if sizeRun && !throttling && tp.Chance(1, 5) {
+			var victim *c12stored
+			for _, b := range sortedKeys(stored) {
+				if st := stored[b]; st.at+st.ttl > s.Now() && st.size < 400*1024 {
+					victim = st
+					break
+				}
+			}
+			if victim != nil {
+				if kk, ok := keyOf[victim.key]; ok {
+					holdSleepers = true
+					s.SleepUntil(victim.at + victim.ttl + 1)
+					forcePad = len(pads) - 1
+					doResponse(kk)
+					holdSleepers = false
+					for i := 0; i < 200; i++ {
+						var bg *kernel.Task
+						for _, t := range s.ParkedTasks() {
+							if !t.Harness {
+								bg = t
+							}
+						}
+						if bg == nil {
+							break
+						}
+						s.Resume(bg)
+					}
+					for k := 0; k < 3; k++ {
+						forcePad = 1 + tp.Choose(2)
+						doResponse(pickKey())
+					}
+					forcePad = -1
+					s.FaultFired("store_while_the_expired_entrys_sleeper_is_held")
+					probeAll()
+					continue
+				}
+			}
+		}
 		if limitChanges && tp.Chance(1, 4) { // the remedy is reloaded with another size limit
 			cacheCfg.MaxCacheSizeMegabytes = []float32{1, 0.5, 0.35, 0.1}[tp.Choose(4)]
 			s.Event("limit", fmt.Sprint(cacheCfg.MaxCacheSizeMegabytes))
